@@ -1,9 +1,176 @@
 (* C08 - Hybrid probability results never certify a wrong decision.
    This file contains only the property theorems; each is closed by `exact <lemma>` and followed
-   by Print Assumptions.  The lemmas live in the *Proofs.v files. *)
+   by Print Assumptions.  The lemmas live in LineageProofs.v, ProbProofs.v, SearchProofs.v,
+   ControllerProofs.v; the notions used in the statements are defined in Spec.v (worlds, `sem`, `Prob`,
+   `Prob_node`, `holds`, `dnf`) and SearchSpec.v (`st_holds`, `search_inv`, `covers`, `result_sound`).
+
+   Reading guide.  `a` is a lineage arena (LineageStore), `wf a` says children precede parents (what the
+   store's API guarantees), `sl` a seed snapshot, `clk : N -> N` an ARBITRARY clock (reading number ->
+   instant), `orc` an ARBITRARY SDD oracle (for every SDD computation: how many budget checkpoints it
+   makes and whether it then succeeds or exceeds the node budget), `c` any configuration (thresholds,
+   band, k schedule, time budgets, node budget), `kf`/`fuel` recursion fuel of the model (a result
+   `RFuel` is the model running out of fuel and carries no claim). *)
 Require Import List NArith QArith Bool.
-Require Import KV.Hybrid.Lineage KV.Hybrid.Spec KV.Hybrid.Model.
+Require Import KV.Hybrid.Lineage KV.Hybrid.Spec KV.Hybrid.Model KV.Hybrid.SearchSpec
+               KV.Hybrid.LineageProofs KV.Hybrid.BuildProofs KV.Hybrid.ProbProofs KV.Hybrid.SearchProofs KV.Hybrid.ControllerProofs
+               KV.Hybrid.TerminationProofs.
 Import ListNotations.
+Open Scope Q_scope.
+
+(* (1) The search invariant.  In every world: root <-> (some emitted proof holds) or (some frontier state
+   holds, i.e. its partial proof and all its pending nodes are true).  Every step of the loop of
+   enumerate_proofs - whatever the deadline test answers - preserves it, and a step that ends the loop
+   returns proofs and a residual that `covers` the root. *)
+Theorem C08_search_invariant :
+  forall a sl root cap expired c,
+    wf a = true -> search_inv a root c -> cfg_ok sl c ->
+    match step a sl cap expired c with
+    | SCont c' => search_inv a root c' /\ cfg_ok sl c'
+    | SDone (EOk ps res) => covers a root sl ps res
+    | SDone _ => True
+    end.
+Proof. exact step_sound. Qed.
+Print Assumptions C08_search_invariant.
+
+(* ... hence whatever enumerate_proofs returns, at any cap, deadline, clock and starting time, covers the root *)
+Theorem C08_enumerate_covers :
+  forall fuel a sl root cap deadline clk t ps res t',
+    wf a = true ->
+    enumerate fuel a sl root cap deadline clk t = (EOk ps res, t') ->
+    covers a root sl ps res.
+Proof. exact enumerate_sound. Qed.
+Print Assumptions C08_enumerate_covers.
+
+(* (2) The interval computed from retained proofs + probe + frontier bounds contains P(root) (union bound,
+   independent seeds). *)
+Theorem C08_interval_from_enumeration :
+  forall a sl root, wf a = true -> seeds_valid sl ->
+  forall ps res lower rc lo hi,
+    covers a root sl ps res ->
+    lower == Prob sl (dnf (firstn (N.to_nat rc) ps)) ->
+    interval_from_enumeration sl lower ps rc res = IOk lo hi ->
+    lo <= Prob_node sl a root /\ Prob_node sl a root <= hi.
+Proof.
+  intros a sl root Hwf [Hnd Hok]. exact (interval_sound a sl root Hnd Hok).
+Qed.
+Print Assumptions C08_interval_from_enumeration.
+
+(* the exact count of the retained proofs (what retained_proof_wmc obtains from the SDD manager) *)
+Theorem C08_retained_wmc_exact :
+  forall sl, seeds_valid sl -> forall ps, wmc_dnf sl ps == Prob sl (dnf ps).
+Proof. intros sl [Hnd _]. exact (wmc_dnf_Prob sl Hnd). Qed.
+Print Assumptions C08_retained_wmc_exact.
+
+(* The master statement: for every lineage formula over independent seeds, every configuration, every clock
+   and every SDD oracle, what evaluate_hybrid_controlled returns is sound:
+     Exact p            -> p = P(root), and the decision agrees with the threshold
+     Bounded [lo,hi] d  -> lo <= P(root) <= hi, Alert -> P(root) >= threshold, NoAlert -> P(root) < threshold
+     NeedsExact lo hi   -> the optional bounds still hold; no decision. *)
+Theorem C08_sound :
+  forall a sl root,
+    wf a = true -> seeds_valid sl -> has_exclusive sl a root = false ->
+    forall kf fuel c clk orc,
+      result_sound (threshold c) (Prob_node sl a root) (evaluate kf fuel c a sl root clk orc).
+Proof. exact evaluate_sound. Qed.
+Print Assumptions C08_sound.
+
+(* The clauses of the property, one by one. *)
+Theorem C08_exact :
+  forall a sl root, wf a = true -> seeds_valid sl -> has_exclusive sl a root = false ->
+  forall kf fuel c clk orc p d r m,
+    evaluate kf fuel c a sl root clk orc = RExact p d r m -> p == Prob_node sl a root.
+Proof.
+  intros a sl root Hwf Hv Hx kf fuel c clk orc p d r m E.
+  pose proof (evaluate_sound a sl root Hwf Hv Hx kf fuel c clk orc) as H. rewrite E in H. exact (proj1 H).
+Qed.
+Print Assumptions C08_exact.
+
+Theorem C08_interval :
+  forall a sl root, wf a = true -> seeds_valid sl -> has_exclusive sl a root = false ->
+  forall kf fuel c clk orc lo hi d r m,
+    evaluate kf fuel c a sl root clk orc = RBounded lo hi d r m ->
+    lo <= Prob_node sl a root /\ Prob_node sl a root <= hi.
+Proof.
+  intros a sl root Hwf Hv Hx kf fuel c clk orc lo hi d r m E.
+  pose proof (evaluate_sound a sl root Hwf Hv Hx kf fuel c clk orc) as H. rewrite E in H.
+  destruct H as (H1 & H2 & _). split; assumption.
+Qed.
+Print Assumptions C08_interval.
+
+Definition decision_of (r : result) : option decision :=
+  match r with
+  | RExact _ d _ _ | RBounded _ _ d _ _ => Some d
+  | _ => None
+  end.
+
+Theorem C08_alert :
+  forall a sl root, wf a = true -> seeds_valid sl -> has_exclusive sl a root = false ->
+  forall kf fuel c clk orc,
+    decision_of (evaluate kf fuel c a sl root clk orc) = Some Alert ->
+    threshold c <= Prob_node sl a root.
+Proof.
+  intros a sl root Hwf Hv Hx kf fuel c clk orc E.
+  pose proof (evaluate_sound a sl root Hwf Hv Hx kf fuel c clk orc) as H.
+  destruct (evaluate kf fuel c a sl root clk orc); simpl in *; try discriminate; inversion E; subst.
+  - exact (proj2 H).
+  - exact (proj2 (proj2 H)).
+Qed.
+Print Assumptions C08_alert.
+
+Theorem C08_noalert :
+  forall a sl root, wf a = true -> seeds_valid sl -> has_exclusive sl a root = false ->
+  forall kf fuel c clk orc,
+    decision_of (evaluate kf fuel c a sl root clk orc) = Some NoAlert ->
+    Prob_node sl a root < threshold c.
+Proof.
+  intros a sl root Hwf Hv Hx kf fuel c clk orc E.
+  pose proof (evaluate_sound a sl root Hwf Hv Hx kf fuel c clk orc) as H.
+  destruct (evaluate kf fuel c a sl root clk orc); simpl in *; try discriminate; inversion E; subst.
+  - exact (proj2 H).
+  - exact (proj2 (proj2 H)).
+Qed.
+Print Assumptions C08_noalert.
+
+(* (4) Budgets.  For ANY clock and ANY outcome of the SDD computations (deadline hit at any checkpoint, node
+   budget exceeded, or success) the result is Exact / Bounded with the guarantees above, or NeedsExact whose
+   optional bounds still contain P(root) and which carries no decision - never a guessed decision. *)
+Theorem C08_budget :
+  forall a sl root, wf a = true -> seeds_valid sl -> has_exclusive sl a root = false ->
+  forall kf fuel c (clk : N -> N) (orc : sddoracle),
+    match evaluate kf fuel c a sl root clk orc with
+    | RExact p d _ _ => p == Prob_node sl a root /\ decision_sound (threshold c) (Prob_node sl a root) d
+    | RBounded lo hi d _ _ =>
+        lo <= Prob_node sl a root /\ Prob_node sl a root <= hi /\ decision_sound (threshold c) (Prob_node sl a root) d
+    | RNeedsExact lo hi _ _ =>
+        (forall l, lo = Some l -> l <= Prob_node sl a root) /\ (forall h, hi = Some h -> Prob_node sl a root <= h)
+    | RFuel => True
+    end.
+Proof. exact evaluate_sound. Qed.
+Print Assumptions C08_budget.
+
+(* ... and when the time budget is gone from the very first reading (every reading is later than the previous
+   one by at least the budgets) and the SDD computation needs at least one checkpoint, the result IS NeedsExact
+   without bounds: the controller does not guess. *)
+Theorem C08_budget_expired :
+  forall a sl root kf fuel c clk orc,
+    validate c = true ->
+    (clk 0 + topk_budget c <= clk 1)%N ->
+    (forall i, clk i + sdd_budget c <= clk (i + 1))%N ->
+    (1 <= fst (orc 2 0))%N ->
+    exists rs m, evaluate (S kf) (S fuel) c a sl root clk orc = RNeedsExact None None rs m.
+Proof. exact evaluate_expired. Qed.
+Print Assumptions C08_budget_expired.
+
+(* Fuel is a device of the model only: with fuel above `search_bound a root` (computed bottom-up from the arena:
+   d(root)+s(root), TerminationProofs.v) for the search and above k_max for the k-loop, the model never answers
+   RFuel - every step of the search lowers a measure of the frontier, every round of the loop raises k. *)
+Theorem C08_terminates :
+  forall kf fuel c a sl root clk orc,
+    wf a = true ->
+    (N.to_nat (search_bound a root) < fuel)%nat -> (N.to_nat (k_max c) < kf)%nat ->
+    evaluate kf fuel c a sl root clk orc <> RFuel.
+Proof. exact evaluate_terminates. Qed.
+Print Assumptions C08_terminates.
 
 (* An invalid configuration never yields a number or a decision. *)
 Theorem C08_invalid_config :
@@ -12,3 +179,94 @@ Theorem C08_invalid_config :
     evaluate kf fuel c a sl root clk orc = RNeedsExact None None DiagnosticOnly metrics0.
 Proof. intros. unfold evaluate, evaluate_with. rewrite H. reflexivity. Qed.
 Print Assumptions C08_invalid_config.
+
+(* evaluate_topk (fixed k): the interval contains P(root); an exhausted frontier makes the lower bound exact *)
+Theorem C08_topk :
+  forall a sl root, wf a = true -> seeds_valid sl ->
+  forall fuel k budget clk orc lower lo hi ku fe ch mg,
+    evaluate_topk fuel a sl root k budget clk orc = TkOk lower lo hi ku fe ch mg ->
+    lower <= Prob_node sl a root /\ lo <= Prob_node sl a root /\ Prob_node sl a root <= hi
+    /\ (fe = true -> lower == Prob_node sl a root).
+Proof. exact evaluate_topk_sound. Qed.
+Print Assumptions C08_topk.
+
+(* (5, stretch) Exclusive groups: the top-k path is never taken; the answer is the exact count of the compiled
+   SDD (defined by the Spec `ProbX_node`; that the manager computes it is property C07) or NeedsExact. *)
+Theorem C08_exclusive_partial :
+  forall a sl root kf fuel c clk orc,
+    has_exclusive sl a root = true ->
+    (exists d m, evaluate kf fuel c a sl root clk orc
+                 = RExact (qclamp (Qred (ProbX_node sl a root)) 0 1) d ExactSdd m)
+    \/ (exists rs m, evaluate kf fuel c a sl root clk orc = RNeedsExact None None rs m).
+Proof. exact evaluate_exclusive. Qed.
+Print Assumptions C08_exclusive_partial.
+
+(* The lineage store.  `good a` = well-formed + FALSE/TRUE at ids 0/1; `extends a a'` = a' is good, at least as long,
+   and every existing id keeps its meaning; `opb true` = conjunction, `opb false` = disjunction (BuildProofs.v).
+   canonical_nary (flattening, sort+dedup, complement detection, hash-consing) returns a node that denotes the
+   conjunction / disjunction of its arguments and disturbs nothing. *)
+Theorem C08_canonical_nary :
+  forall a is_and items a' id,
+    good a -> (forall x, In x items -> (x < alen a)%N) ->
+    canonical_nary a is_and items = (a', id) ->
+    extends a a' /\ (id < alen a')%N /\ forall w, sem a' id w = opb is_and (fun x => sem a x w) items.
+Proof. exact canonical_nary_spec. Qed.
+Print Assumptions C08_canonical_nary.
+
+(* Every arena built through the store's API (any sequence of literal / not / and / or) is well-formed, every
+   handle is in range, and every handle denotes the formula that was asked for (`ops_vals` evaluates the
+   operations directly, without any arena). *)
+Theorem C08_build :
+  forall ops w,
+    wf (fst (build ops)) = true
+    /\ Forall (fun id => (id < alen (fst (build ops)))%N) (snd (build ops))
+    /\ map (fun id => sem (fst (build ops)) id w) (snd (build ops)) = ops_vals w ops.
+Proof. exact build_spec. Qed.
+Print Assumptions C08_build.
+
+(* End to end, without any hypothesis on the arena: for a formula given by construction operations, the result of
+   the controller is sound for the probability of THAT formula. *)
+Theorem C08_sound_built :
+  forall ops rootref sl,
+    let a := fst (build ops) in
+    let root := deref (snd (build ops)) rootref in
+    seeds_valid sl -> has_exclusive sl a root = false ->
+    forall kf fuel c clk orc,
+      result_sound (threshold c) (Prob sl (ops_formula ops rootref)) (evaluate kf fuel c a sl root clk orc).
+Proof. exact evaluate_built_sound. Qed.
+Print Assumptions C08_sound_built.
+
+(* ---------- non-vacuity: the hypotheses are satisfiable and every kind of result occurs ---------- *)
+Definition ex_sl : seeds := [(0%N, (4 # 5, None)); (1%N, (3 # 5, None)); (2%N, (1 # 2, None))].
+Definition ex_arena : arena := fst (build [OLit 0; OLit 1; OLit 2; OAnd [2; 3]%N; OAnd [2; 4]%N; OOr [5; 6]%N]).
+Definition ex_cfg (thr : Q) : config := mk_config thr (1 # 50) (1 # 10000) 1 1 2 1000 2000 100000.
+Definition ex_orc : sddoracle := fun _ _ => (3%N, true).
+
+Example C08_example_wf : wf ex_arena = true /\ has_exclusive ex_sl ex_arena 7 = false.
+Proof. vm_compute. split; reflexivity. Qed.
+
+Example C08_example_bound : search_bound ex_arena 7 = 9%N.
+Proof. vm_compute. reflexivity. Qed.
+
+Example C08_example_truth : Prob_node ex_sl ex_arena 7 == 16 # 25.
+Proof. vm_compute. reflexivity. Qed.
+
+Example C08_example_alert :
+  exists m, evaluate 10 1000 (ex_cfg (3 # 10)) ex_arena ex_sl 7 (fun i => i) ex_orc
+            = RBounded (12 # 25) (22 # 25) Alert LowerBoundCrossedThreshold m.
+Proof. eexists. vm_compute. reflexivity. Qed.
+
+Example C08_example_noalert :
+  exists m, evaluate 10 1000 (ex_cfg (9 # 10)) ex_arena ex_sl 7 (fun i => i) ex_orc
+            = RBounded (12 # 25) (22 # 25) NoAlert UpperBoundBelowThreshold m.
+Proof. eexists. vm_compute. reflexivity. Qed.
+
+Example C08_example_exact :
+  exists m, evaluate 10 1000 (ex_cfg (3 # 5)) ex_arena ex_sl 7 (fun i => i) ex_orc
+            = RExact (16 # 25) Alert ExactSdd m.
+Proof. eexists. vm_compute. reflexivity. Qed.
+
+Example C08_example_needs_exact :
+  exists m, evaluate 10 1000 (ex_cfg (3 # 5)) ex_arena ex_sl 7 (fun i => if (i <? 20)%N then i else (i * 100000)%N) ex_orc
+            = RNeedsExact (Some (12 # 25)) (Some (22 # 25)) SddBudget m.
+Proof. eexists. vm_compute. reflexivity. Qed.
